@@ -443,6 +443,7 @@ class Sim:
         step_cap: int = 20000,
         watchdog_s: float = 900.0,
         shuffle_listing: bool = True,
+        same_pid: bool = False,
     ) -> None:
         self.sandbox = sandbox
         self.seed_text = seed_text
@@ -462,6 +463,7 @@ class Sim:
         self.step_cap = step_cap
         self.watchdog_s = watchdog_s
         self.shuffle_listing = shuffle_listing
+        self.same_pid = same_pid
 
         self.rng_sched = random.Random(f"{seed_text}:sched")
         self.rng_fault = random.Random(f"{seed_text}:fault")
@@ -492,7 +494,9 @@ class Sim:
 
     # -- actors ------------------------------------------------------------------------
     def spawn(self, name: str, fn: Callable[[], Any]) -> Actor:
-        actor = Actor(self, name, fn, vpid=1000 + len(self.actors))
+        # separate PID namespaces (containers sharing a volume): every process may be PID 1
+        vpid = 1 if self.same_pid else 1000 + len(self.actors)
+        actor = Actor(self, name, fn, vpid=vpid)
         self.actors.append(actor)
         self.by_name[name] = actor
         return actor
